@@ -151,8 +151,29 @@ func (gencodeEngine) Gen(r *Rand, tier string) Case {
 			}
 			return strings.Join(o, ",")
 		}
+		urlArgs := func() string {
+			var l []string
+			for i, n := 0, r.Range(1, 4); i < n; i++ {
+				l = append(l, hx(r.Pick([]string{"{id}", "{n}", "q", "{id}", "page"}))+"="+hx(r.Pick([]string{"7", "", "a b", "{n}", "x"})))
+			}
+			return strings.Join(l, ",")
+		}
 		for i, n := 0, r.Range(3, 8); i < n; i++ {
-			switch r.Intn(4) {
+			switch r.Intn(5) {
+			case 4:
+				spec := "none"
+				switch r.Intn(6) {
+				case 0:
+				case 1, 2:
+					spec = "m:" + urlArgs()
+				case 3:
+					spec = "p:" + urlArgs()
+				case 4:
+					spec = "o:" + urlArgs()
+				default:
+					spec = "s:" + hx(r.Pick([]string{"x", "", "{id}"}))
+				}
+				ops = append(ops, "tourl "+hx(r.Pick([]string{"/u/{id}", "/u/{id:\\d+}/{n}", "/static", "/{n}/x-{id}"}))+" "+spec)
 			case 0:
 				ops = append(ops, fmt.Sprintf("comb %d %d", r.PickInt([]int{0, 0, 1, 2, 5, 30}), r.PickInt([]int{0, 1, 1, 3, 33})))
 			case 1:
@@ -601,6 +622,50 @@ func (gencodeEngine) Run(ops []string) (ans []string, oracle []string) {
 				return gcTF(cache.Delete(arg(1)))
 			case f[0] == "chas" && len(f) == 2:
 				return gcTF(cache.Has(arg(1)))
+			case f[0] == "tourl" && len(f) == 3:
+				rt := rux.NewRoute(arg(1), nil)
+				kind, rest, _ := strings.Cut(f[2], ":")
+				var args []any
+				switch kind {
+				case "none":
+				case "m":
+					p, ok := gcParseParams(rest)
+					if !ok {
+						return "bad-op"
+					}
+					m := rux.M{}
+					for k, v := range p {
+						m[k] = v
+					}
+					args = []any{m}
+				case "p", "o":
+					if rest != "-" {
+						for _, kv := range strings.Split(rest, ",") {
+							k, v, ok := strings.Cut(kv, "=")
+							if !ok {
+								return "bad-op"
+							}
+							ks, ok1 := unhxDash(k)
+							vs, ok2 := unhxDash(v)
+							if !ok1 || !ok2 {
+								return "bad-op"
+							}
+							args = append(args, ks, vs)
+						}
+					}
+					if kind == "o" && len(args) > 0 {
+						args = args[:len(args)-1]
+					}
+				case "s":
+					v, ok := unhxDash(rest)
+					if !ok {
+						return "bad-op"
+					}
+					args = []any{v}
+				default:
+					return "bad-op"
+				}
+				return hx(rt.ToURL(args...).Path)
 			case f[0] == "comb" && len(f) == 3:
 				order := rux.VerifCombineHandlers(atoi(f[1]), atoi(f[2]))
 				if len(order) == 0 {
